@@ -225,6 +225,22 @@ CHECKS['C11'] = dict(
     note=COMMON_NOTE + 'np.argsort(kind=stable) tie order among equally often changing dimensions cannot occur on a sub-grid with >= 2 values per kept dimension.',
     ref='§5 C11')
 
+CHECKS['C12'] = dict(
+    technique='Lean 4 theorems over the reduction model (group structure, rebuilt ancillaries) + differential correspondence with a group-by oracle, exhaustive subsets in thorough',
+    text=('Theorems (Usid/Properties/C12.lean): for every N-D view and set of axes the reduced array has one axis per remaining '
+          'dimension with its size, one cell per combination of remaining coordinates, and every cell collects exactly '
+          'prod(reduced sizes) source elements; the in-memory reduction refuses empty / unknown dimension lists; rebuilt '
+          'ancillaries carry exactly the labels/units of the remaining dimensions in order (one index and one value row '
+          'each) or the one-point placeholder when a whole side is reduced. PARTIAL: "each cell holds exactly the source '
+          'elements sharing its remaining coordinates" is the definition of the model\'s groups (enumeration of the '
+          'Cartesian product); its link to main[r,c] goes through C01 (in progress). The model returns the GROUP of every '
+          'output cell and the harness applies the reduction function, so float rounding never enters the comparison. '
+          'Correspondence/oracle: in-memory result vs group-by of the raw data for mean/sum/max/min/std; with '
+          'to_hdf5=True the written file is read back with raw h5py and every element compared by coordinates, or the '
+          'call must raise (it does whenever the result would lose a whole side together with part of the other).'),
+    note=COMMON_NOTE + 'dask reduction order / float rounding not modelled (integer tokens; std compared with relative tolerance 1e-9).',
+    ref='§5 C12')
+
 REASON_PENDING = 'check not built yet in this round (planned: Lean model + theorems + correspondence, see DESIGN.md §5)'
 
 
